@@ -275,18 +275,55 @@ instance (s : Option PyVal) : Decidable (StepWF s) := by
   · exact inferInstanceAs (Decidable True)
   · simp only; cases s.ext? <;> simp only <;> infer_instance
 
-/-- Declarations the constructors accept for the Range flavours: length 2, bounds
-of the flavour's type, a numeric non-zero `step` (anything else makes every
-`_validate` call raise, i.e. no Parameter exists). -/
+/-- `step` is absent or of the type the family declares for it -/
+def StepOfType (P : PyVal → Bool) (step : Option PyVal) : Prop :=
+  match step with
+  | none => True
+  | some s => P s = true
+
+instance (P : PyVal → Bool) (s : Option PyVal) : Decidable (StepOfType P s) := by
+  unfold StepOfType; cases s <;> simp only <;> infer_instance
+
+/-- Declarations the constructors accept.  Number family: a `step` of the family's
+type (number / int / date).  Range flavours: length 2, hard and soft bounds of the
+flavour's type, a numeric non-zero `step`.  Anything else makes every `_validate`
+call raise, i.e. no Parameter exists (`ill_formed_not_constructed`). -/
 def WF (c : Cfg) : Prop :=
   match c.ptype with
-  | .range => c.length = 2 ∧ BoundsOfType PyVal.isNumber c.bounds ∧ StepWF c.step
-  | .dateRange => c.length = 2 ∧ BoundsOfType PyVal.isDt c.bounds ∧ StepWF c.step
-  | .calendarDateRange => c.length = 2 ∧ BoundsOfType PyVal.isDt c.bounds ∧ StepWF c.step
+  | .number => StepOfType PyVal.isNumber c.step
+  | .magnitude => StepOfType PyVal.isNumber c.step
+  | .integer => StepOfType PyVal.isInt c.step
+  | .date => StepOfType PyVal.isDt c.step
+  | .calendarDate => StepOfType PyVal.isDt c.step
+  | .range => c.length = 2 ∧ BoundsOfType PyVal.isNumber c.bounds ∧
+      BoundsOfType PyVal.isNumber c.softbounds ∧ StepWF c.step
+  | .dateRange => c.length = 2 ∧ BoundsOfType PyVal.isDt c.bounds ∧
+      BoundsOfType PyVal.isDt c.softbounds ∧ StepWF c.step
+  | .calendarDateRange => c.length = 2 ∧ BoundsOfType PyVal.isDt c.bounds ∧
+      BoundsOfType PyVal.isDt c.softbounds ∧ StepWF c.step
   | _ => True
 
 instance (c : Cfg) : Decidable (WF c) := by
   unfold WF; cases c.ptype <;> simp only <;> infer_instance
+
+/-! ### the setter: hook output, constant / read-only -/
+
+/-- the constant / read-only declaration lets an assignment from this situation through:
+never for a read-only parameter; for a constant one on the class, during `__init__`, or
+when the value is the very object already held -/
+def GuardOk (c : Cfg) (s : Situation) : Prop :=
+  c.readonly = false ∧ (c.constant = true → s ≠ .initialised false)
+
+instance (c : Cfg) (s : Situation) : Decidable (GuardOk c s) := by unfold GuardOk; infer_instance
+
+/-- an assignment of `v` from situation `s` is to succeed: what the parameter would hold --
+the `set_hook`'s output for the Number family -- satisfies the declared constraints, and the
+constant / read-only declaration permits it -/
+def Admitted (c : Cfg) (x : Ctx) (s : Situation) (v : PyVal) : Prop :=
+  Sat c x (setterValue c v) ∧ GuardOk c s
+
+instance (c : Cfg) (x : Ctx) (s : Situation) (v : PyVal) : Decidable (Admitted c x s v) := by
+  unfold Admitted; infer_instance
 
 /-! ### what a constructor call declares -/
 
@@ -317,13 +354,17 @@ def declaredBounds (a : Args) : Bounds :=
 /-- the declared constraints, for a declared length `n` -/
 def declaredCfg (a : Args) (n : Nat) : Cfg :=
   { ptype := a.ptype, allowNone := declaredAllowNone a, bounds := declaredBounds a,
-    incl := a.incl.getD (true, true), step := a.step, length := n, regex := a.regex,
+    incl := a.incl.getD (true, true), softbounds := (a.softbounds.getD none), step := a.step, length := n,
+    regex := a.regex,
     lenBounds := a.lenBounds.getD (some (some 0, none)),           -- List: at least 0 items
     itemType := a.itemType, isInstance := a.isInstance.getD true,
     objects := a.objects.getD [],
     checkOnSet := a.checkOnSet.getD ((a.objects.getD []).length != 0),   -- checked iff objects were given
     classes := (match a.ptype with | .dict => [PyVal.cDict] | _ => a.classes),
-    allowNamed := a.allowNamed.getD true }
+    allowNamed := a.allowNamed.getD true,
+    hook := a.hook.getD .identity,
+    constant := a.constant.getD false || a.readonly.getD false,    -- a read-only parameter is constant
+    readonly := a.readonly.getD false }
 
 /-- the `length` a declaration names: the argument (2 for the fixed-length flavours) -/
 def lengthDeclared (a : Args) : Option Nat :=
@@ -384,16 +425,20 @@ def expectedReadback (c : Cfg) (v : PyVal) : String :=
   | .event => if v.isBool && PyVal.pyEq v (storedValue c v) then "same" else "diff"
   | _ => "same"
 
-/-- verdict on one observed assignment; `none` = the property holds on it -/
-def judgeAssign (c : Cfg) (x : Ctx) (v : PyVal) (outcome : String) (readback : Option String) :
+/-- verdict on one observed assignment from situation `s`; `none` = the property holds on it.
+`readbackOk` = the value read back is the one the parameter is to hold. -/
+def judgeAssign (c : Cfg) (x : Ctx) (s : Situation) (v : PyVal) (outcome : String) (readbackOk : Bool) :
     Option String :=
+  let sat := decide (Sat c x (setterValue c v))
+  let adm := decide (Admitted c x s v)
   if outcome == "ok" then
-    if !decide (Sat c x v) then some "accepted a value that violates the declared constraints"
-    else if readback != some (expectedReadback c v) then some "the stored value is not the assigned one"
+    if !sat then some "accepted a value that violates the declared constraints"
+    else if !adm then some "accepted an assignment the constant / read-only declaration forbids"
+    else if !readbackOk then some "the stored value is not the one the parameter is to hold"
     else none
   else if outcome == "ValueError" || outcome == "TypeError" then
-    if decide (Sat c x v) then some "rejected a value that satisfies the declared constraints" else none
-  else if decide (Sat c x v) then some s!"rejected (with {outcome}) a value that satisfies the declared constraints"
+    if adm then some "rejected a value that satisfies the declared constraints" else none
+  else if adm then some s!"rejected (with {outcome}) a value that satisfies the declared constraints"
   else some s!"raised {outcome}, neither ValueError nor TypeError"
 
 /-- verdict on the observed outcome of the constructor -/
